@@ -187,3 +187,52 @@ def t8(ctx):
             bad += 1
             yield Ob(key_of("C18-T8", c["body"].path, "size-narrowed-unguarded", bad), False, "`%s as u32` without a guard n <= u32::MAX: truncate(2^32 + 64) sets the capacity to 64" % short(c["value"], 60), ctx.loc(c))
     yield Ob(key_of("C18-T8", b.path, "narrowing-casts"), len(casts) >= 1, "%d narrowing cast(s) of the requested size on the truncate path, %d unguarded" % (len(casts), bad), b.loc(), trivial=bad == 0)
+
+
+@rule("C18-T9", "C18", 1, "a failing truncate has no effect: in the file arm the old mapping is released only when the new one exists - no fallible step (`?`) lies between the "
+      "release of the old mapping and the store of the new one (otherwise an I/O error leaves the arena pointing at unmapped memory, and the buffer is freed again on drop)",
+      configs=MEMCFG)
+def t9(ctx):
+    b = ctx.facts.one(r"^memory::Memory::<R, PR, H>::truncate$")
+    ev, res = ctx.eval(b, no_inline=(r"to_mmap_options$",))
+    drops = [e for e in res.log if e["kind"] == "drop" and not e["chain"] and re.search(r"Box<memmap2::MmapMut", e.get("ty") or "")]
+    stores = [e for e in res.log if e["kind"] == "store" and not e["chain"] and e["path"] and e["path"][-1] == "buf"]
+    between = []
+    swaps = [e for e in res.log if e["kind"] == "call" and not e["chain"] and e["callee"].endswith("mem::replace") and "buf" in show(e["args"][0])]
+    if len(drops) == 1 and swaps and mentions(drops[0]["value"], swaps[0]["result"]):
+        # the value dropped is what mem::replace took out after putting the new mapping in: released last by construction
+        yield Ob(key_of("C18-T9", b.path, "old-mapping-released-last"), True, "file arm: the old mapping is the value returned by mem::replace(buf, new) and is dropped afterwards", ctx.loc(drops[0]))
+        return
+    ok = len(drops) == 1 and len(stores) == 1
+    if ok:
+        d, st = drops[0], stores[0]
+        if d["seq"] < st["seq"]:
+            # the old mapping is gone first: every error return reachable from the drop before the store is a dangling state
+            between = [r for r in res.log if r["kind"] == "ret0" and not r["chain"] and tag(r["value"]) == "variant" and r["value"][2] == "Err"
+                       and r["bb"] in b.reach(d["bb"]) and st["bb"] not in b.reach(r["bb"]) and d["seq"] < r["seq"]]
+            ok = not between
+    yield Ob(key_of("C18-T9", b.path, "old-mapping-released-last"), ok,
+             "file arm: %s" % ("the old mapping is dropped after the new one is stored" if ok else "%d error return(s) between the release of the old mapping and the store of the new one: %s" %
+                               (len(between), [ctx.loc(r) for r in between][:3])), ctx.loc(drops[0]) if drops else b.loc())
+
+
+@rule("C18-T10", "C18", 1, "a copy-on-write arena (Options::map_copy) keeps its private pages: truncate must re-create the mapping in the same mode (or refuse), not re-map the file "
+      "shared - that drops every private modification (the header included: allocated() changes) and makes later writes go to the file", configs=MEMCFG)
+def t10(ctx):
+    b = ctx.facts.one(r"^memory::Memory::<R, PR, H>::truncate$")
+    a = None
+    for x in ctx.facts.adts.values():
+        if x["path"].endswith("MemoryBackend"):
+            a = x
+    fields = [f["name"] for v in (a["variants"] if a else []) if v.get("name") == "MmapMut" for f in v["fields"]]
+    remembers = any(re.search(r"copy|cow|private|mode|remap|mapper", f) for f in fields)
+    callees = [(t.get("resolved") or t.get("callee") or "") for _, t in b.calls()]
+    shared_remap = any(c.endswith("memory::mmap_mut") for c in callees)
+    # ... and truncate must consult it before it re-maps
+    ev, res = ctx.eval(b, no_inline=(r"to_mmap_options$",))
+    remaps = [e for e in res.log if e["kind"] == "call" and not e["chain"] and e["callee"].endswith("memory::mmap_mut")]
+    consulted = bool(remaps) and all(any(f[0] == "bool" and re.search(r"copy|cow|private|mode", show(f[1])) for f in ctx.facts_of(ev, e)) for e in remaps)
+    ok = (remembers and consulted) or not shared_remap
+    yield Ob(key_of("C18-T10", b.path, "copy-on-write-mode-kept"), ok,
+             "MemoryBackend::MmapMut fields %s %s; truncate %s" % (fields, "record the mapping mode" if remembers else "do not record whether the mapping is private (map_copy) or shared (map_mut)",
+                                                               "re-maps with mmap_mut (shared)" if shared_remap else "does not re-map shared"), b.loc())
